@@ -193,6 +193,26 @@ HookEmpty(h) ==
 HookVisible(h) == [oofs |-> {x \in Range(h.oofs) : x.share # 0}, lofs |-> Range(h.lofs), locks |-> HookLocks(h)]
 
 -----------------------------------------------------------------------------
+(* One lock-owner with lock state on one file through two open-owners: the  *)
+(* protocol allows it, but which of the owner's bytes belong to which of    *)
+(* the two lock state ids is not defined once ranges merge, so the model    *)
+(* cannot prescribe what CLOSE or lease expiry of one of them releases (the *)
+(* pinned server panics in that situation, see TestFindings).  From the     *)
+(* moment it arises until the end of the history only the clauses that any  *)
+(* correct server satisfies are judged: no panic, no leaf closed more often *)
+(* than opened, nothing retained after all leases expired.                  *)
+
+Ambiguous(st) ==
+  \E x, y \in DOMAIN st.lofs :
+    /\ x # y /\ st.lofs[x].c = st.lofs[y].c /\ st.lofs[x].lk = st.lofs[y].lk
+    /\ st.oofs[st.lofs[x].ot].f = st.oofs[st.lofs[y].ot].f
+
+Amb == last.kind = "ambiguous"
+MarkAmb(st) == last' = IF Amb \/ Ambiguous(st) THEN [last EXCEPT !.kind = "ambiguous"] ELSE last
+LeafNeg(leaf) == IF \E f \in 1 .. Len(leaf) : \E b \in {"R", "W"} : Diff(leaf[f], b) < 0
+                 THEN "C18:leaf-closed-more-often-than-opened" ELSE "ok"
+
+-----------------------------------------------------------------------------
 (* Combined verdict of one observed step.                                  *)
 
 First(vs) == IF \E i \in 1 .. Len(vs) : vs[i] # "ok"
@@ -216,7 +236,7 @@ HashVerdict(ctx, ln) ==
 
 Observe(st, ln) ==
   /\ obs' = [leaf |-> ln.leaf, hook |-> ln.hook]
-  /\ nonconf' = IF LeafExact(st, ln.leaf) /\ HookExact(st, ln.hook) THEN nonconf ELSE nonconf + 1
+  /\ nonconf' = IF Amb \/ (LeafExact(st, ln.leaf) /\ HookExact(st, ln.hook)) THEN nonconf ELSE nonconf + 1
 
 Remember(ln) == seen' = IF ln.rep.h # "" THEN Put(seen, Key(ln), ln.rep.h) ELSE seen
 
@@ -227,8 +247,8 @@ TInit == /\ s = InitState(Names) /\ last = NoStep /\ l = 1 /\ verdict = "ok" /\ 
 TReset ==
   /\ IsEvent("reset")
   /\ s' = InitState(Names) /\ verdict' = IF Line.lease = Lease /\ Line.nb = NB THEN "ok" ELSE "NC:constants-differ"
-  /\ obs' = NoObs /\ seen' = EmptyMap
-  /\ UNCHANGED <<last, nonconf>>
+  /\ obs' = NoObs /\ seen' = EmptyMap /\ last' = NoStep
+  /\ UNCHANGED nonconf
 
 TTick ==
   /\ IsEvent("tick")
@@ -247,17 +267,18 @@ TOp ==
          \* A replayed OPEN leaves the current file handle of the COMPOUND
          \* alone in the real server (a following GETFH does not see the
          \* opened file).  The OPEN result itself is what C19 speaks about,
-         \* so unless StrictReplayFh is set this is only counted.
+         \* so unless StrictReplayFh is set this is tolerated.
          lax == o.ctx = "replay" /\ req.op = "OPEN" /\ ~StrictReplayFh
          ln  == IF lax THEN [Line EXCEPT !.rep.fh = o.rep.fh] ELSE Line
          r   == Proj(ln.rep)
          v1  == Classify(s, req, o.rep, o.ctx, r)
      IN /\ s' = o.s
-        /\ verdict' = First(<<v1, HashVerdict(o.ctx, ln), DeniedCheck(s, req, Line.rep),
-                              EffectsVerdict(s, o.ctx, v1 = "ok", Line),
-                              LeafVerdict(o.s, Line.leaf), HookC20(o.s, Line.hook)>>)
+        /\ verdict' = IF Amb THEN LeafNeg(Line.leaf)
+                       ELSE First(<<v1, HashVerdict(o.ctx, ln), DeniedCheck(s, req, Line.rep),
+                                    EffectsVerdict(s, o.ctx, v1 = "ok", Line),
+                                    LeafVerdict(o.s, Line.leaf), HookC20(o.s, Line.hook)>>)
         /\ Observe(o.s, Line) /\ Remember(Line)
-  /\ UNCHANGED last
+        /\ MarkAmb(o.s)
 
 TIOStart ==
   /\ IsEvent("iostart")
@@ -268,11 +289,12 @@ TIOStart ==
          ok  == req.op \in {"READ", "WRITE", "SETATTR"} /\ a.io.kind # "fail"
          s1  == IF ok THEN [a.s EXCEPT !.io = Put(@, Line.id, a.io)] ELSE s
      IN /\ s' = s1
-        /\ verdict' = First(<<IF ok THEN "ok"
-                              ELSE IF req.op \in {"READ", "WRITE", "SETATTR"} /\ a.rep.st \in SidErrors
-                                   THEN "C18:state-id-honoured-wrongly"
-                              ELSE "NC:request-in-flight-that-the-model-rejects",
-                              LeafVerdict(s1, Line.leaf), HookC20(s1, Line.hook)>>)
+        /\ verdict' = IF Amb THEN LeafNeg(Line.leaf)
+                       ELSE First(<<IF ok THEN "ok"
+                                    ELSE IF req.op \in {"READ", "WRITE", "SETATTR"} /\ a.rep.st \in SidErrors
+                                         THEN "C18:state-id-honoured-wrongly"
+                                    ELSE "NC:request-in-flight-that-the-model-rejects",
+                                    LeafVerdict(s1, Line.leaf), HookC20(s1, Line.hook)>>)
         /\ Observe(s1, Line)
   /\ UNCHANGED <<last, seen>>
 
@@ -286,9 +308,10 @@ TIOEnd ==
          m  == IF known /\ s.io[Line.id].kind = "plain" /\ s.io[Line.id].f > 0 /\ ~LeafAlive(s, s.io[Line.id].f)
                THEN Err("STALE") ELSE OkRep
      IN /\ s' = s1
-        /\ verdict' = First(<<IF ~known THEN "NC:completion-of-unknown-request"
-                              ELSE IF r # m THEN "NC:reply-differs" ELSE "ok",
-                              LeafVerdict(s1, Line.leaf), HookC20(s1, Line.hook)>>)
+        /\ verdict' = IF Amb THEN LeafNeg(Line.leaf)
+                       ELSE First(<<IF ~known THEN "NC:completion-of-unknown-request"
+                                    ELSE IF r # m THEN "NC:reply-differs" ELSE "ok",
+                                    LeafVerdict(s1, Line.leaf), HookC20(s1, Line.hook)>>)
         /\ Observe(s1, Line) /\ Remember(Line)
   /\ UNCHANGED last
 
@@ -298,7 +321,7 @@ TFinal ==
   /\ verdict' = First(<<IF ~HookEmpty(Line.hook) THEN "C18:state-retained-after-all-leases-expired" ELSE "ok",
                         IF \E f \in 1 .. Len(Line.leaf) : \E b \in {"R", "W"} : Diff(Line.leaf[f], b) # 0
                         THEN "C18:leaf-opens-and-closes-differ-after-all-leases-expired" ELSE "ok",
-                        IF ~Empty(s) THEN "NC:model-retains-state-at-the-end" ELSE "ok">>)
+                        IF ~Amb /\ ~Empty(s) THEN "NC:model-retains-state-at-the-end" ELSE "ok">>)
   /\ UNCHANGED <<s, last, nonconf, obs, seen>>
 
 \* The real code panicked.
